@@ -9,7 +9,7 @@ verif=$(cd "$(dirname "$0")/.." && pwd)
 scratch=$(mktemp -d /tmp/vscratch.XXXXXX)
 mkdir -p "$scratch/repo" && cp -r /repo/cds /repo/src "$scratch/repo/" || exit 2
 ( cd "$scratch/repo" && git init -q . >/dev/null 2>&1; git apply --whitespace=nowarn "$patch" ) || { echo "selftest: patch does not apply"; rm -rf "$scratch"; exit 2; }
-export VERIF_BUILD="$scratch/build"
+export VERIF_BUILD="$scratch/build" VERIF_OUT="$scratch/out"   # evidence/ and replays/ of a selftest never touch /verif
 REPO="$scratch/repo" VERIF_REPLAY_KEEP=1 "$verif/run_check" "$prop" "$tier" 2>&1 | grep -v "^run_check" | tail -${SELFTEST_TAIL:-6}
 rc=${PIPESTATUS[0]}
 rm -rf "$scratch"
